@@ -17,6 +17,24 @@ Theorem T11_add : forall A B, length A = length B -> std_form A = true -> std_fo
   peq (denote (gadd A B)) (denote A ++ denote B).
 Proof. exact denote_gadd. Qed.
 
+(* MPO.plus_identity(alpha, beta, sites=[0]) denotes alpha * 1 + beta * H *)
+Theorem T11_plus_identity : forall a b g, g <> [] -> std_form g = true ->
+  peq (denote (gplus_id a b g)) ((a, []) :: pscale b (denote g)).
+Proof. exact denote_gplus_id. Qed.
+
+(* no false negatives: with T10_peqb_sound, peqb decides "same operator" *)
+Theorem T11_peqb_complete : forall p q, peq p q -> peqb p q = true.
+Proof. exact peqb_complete. Qed.
+
+Example T11_ex_plus_identity :
+  let g := from_terms 3 [mkOT 1 4 (7,0)] [mkCT 0 5 0 2 6 (3,2)] in
+  let a := (2,1) in let b := (0,-1) in
+  g <> [] /\ std_form g = true /\
+  peqb (denote (gplus_id a b g)) ((a, []) :: pscale b (denote g)) = true /\
+  normalize (denote (gplus_id a b g)) =
+    [((2,1), []); ((2,-3), [(0%nat,5); (2%nat,6)]); ((0,-7), [(1%nat,4)])].
+Proof. vm_compute. repeat split; try reflexivity. discriminate. Qed.
+
 (* non-vacuity: two closed graphs built from terms are in standard sum form, and the sum is decided *)
 Example T11_ex_std :
   let A := from_terms 4 [mkOT 1 4 (7,0)] [mkCT 0 5 0 2 6 (3,0); mkCT 0 5 0 3 7 (2,1)] in
@@ -35,3 +53,5 @@ Proof. vm_compute. split; reflexivity. Qed.
 Print Assumptions T11_dagger.
 Print Assumptions T11_scale_first.
 Print Assumptions T11_add.
+Print Assumptions T11_plus_identity.
+Print Assumptions T11_peqb_complete.
